@@ -15,7 +15,7 @@ from vlib.checks.netutil import Net, air_frames
 PROPERTY = "C14"
 LEVEL = "exploration"
 RULE = ("a case = 6..20 drawn nodes over levels 0..4 (parent-closed), per node allow_multicast on/off, multicast_relay on/off and "
-        "optionally an overridden multicast_level, MCU timing models; one multicast() from a sender of class {master, 0o1, other "
+        "optionally an overridden multicast_level, optionally re-addressed from another address/level before the run, MCU timing models; one multicast() from a sender of class {master, 0o1, other "
         "level-1, level 2..4} to level None/0..4 (and -1, 5 for the clamp) with a message of 0..144 bytes (relay scenarios: <= 24 "
         "bytes).  non-trivial = at least 2 receivers on the target level and at least one node on another level; "
         "distinct = SHA-1 of the case JSON")
@@ -35,7 +35,9 @@ def run_case(case):
 
     def main():
         for n in case["nodes"]:
-            c = net.add(n["addr"], n.get("kind", "net"), n["addr"], mcu=n.get("mcu"))
+            c = net.add(n["addr"], n.get("kind", "net"), n["addr"] if n.get("was") is None else n["was"], mcu=n.get("mcu"))
+            if n.get("was") is not None:
+                c.node.node_address = n["addr"]  # the node had another address (and level) before: re-addressed by its application
             if not n.get("mc", True):
                 c.node.allow_multicast = False
                 c.node.node_address = n["addr"]
@@ -180,6 +182,18 @@ def run_case(case):
         for a, n in spec.items():
             if not n.get("mc", True) and out["queues"].get(a):
                 res.fail("C14/received-by-multicast-off-node", "node %o" % a)
+        # levels the message can legitimately reach: the target level, and the level after each level 1..3 that has a
+        # relaying member (the statement's relay clause); a node of any other level must not hold it
+        reach = {target}
+        for lv in (1, 2, 3):
+            if lv in reach and any(n.get("relay") and n.get("mc", True) and eff_level(n) == lv and (a != snd or lv != target)
+                                   for a, n in spec.items()):
+                reach.add(lv + 1)
+        for a, n in spec.items():
+            if a != snd and n.get("mc", True) and eff_level(n) not in reach and holds(a):
+                res.fail("C14/relayed-to-wrong-level", "node %o (level %d) holds the multicast; target level %d, relays can carry it to %s"
+                         % (a, eff_level(n), target, sorted(reach)))
+                break
     res.label("target%d" % target, sender_tag, "len>24" if len(msg) > 24 else "len<=24")
     return res
 
@@ -209,6 +223,10 @@ def _strategy():
                 n["relay"] = True
             if draw(st.integers(0, 9)) == 0:
                 n["mc_level"] = draw(st.integers(0, 4))
+            if draw(st.integers(0, 4)) == 0:
+                was = draw(st.sampled_from([0o4444, 0, 0o5, 0o15, 0o125, 0o3125]))
+                if was != a:
+                    n["was"] = was
             nodes.append(n)
         cand = [n for n in nodes if n["mc"]]
         if not cand:
@@ -240,6 +258,9 @@ def _enum():
         for level in ("default", 0, 1, 2, 3, 4, -1, 5):
             for msg in ("", "6d63", "55" * 30):
                 yield {"nodes": nodes, "sender": snd, "level": level, "type": 1, "msg": msg}
+            # the same population after every node was re-addressed (from the mesh default address / from a level-2 address)
+            for was in (0o4444, 0o15):
+                yield {"nodes": [dict(n, was=was) for n in nodes], "sender": snd, "level": level, "type": 1, "msg": "6d63"}
 
 
 def _enum_history():
@@ -249,6 +270,11 @@ def _enum_history():
     for pre in ([[0o2, 0o1, 100]], [[0o2, 0o5, 100]], [[0o11, 0o2, 65]], [[0o1, 0o12, 127], [0o3, 0o21, 66]]):
         for snd, level in ((0, 1), (0o3, 1), (0o1, 2), (0, 2), (0o12, "default")):
             yield {"nodes": nodes, "sender": snd, "level": level, "type": 1, "msg": "6d63", "pre_writes": pre, "full_queue": []}
+    # relays on every level incl. 0 and 4 (the statement makes levels 1..3 re-broadcast; nothing may leak from the others)
+    pop4 = pop + [0o1111, 0o2111, 0o211]
+    allrelay = [{"addr": a, "kind": "net", "mc": True, "relay": True} for a in pop4]
+    for snd, level in ((0, 4), (0o111, 4), (0o1111, "default"), (0, 3), (0o1, 0), (0o2111, 0), (0, 1)):
+        yield {"nodes": allrelay, "sender": snd, "level": level, "type": 1, "msg": "616c6c", "pre_writes": [], "full_queue": []}
     rnodes = [dict(n, relay=n["addr"] in (0o1, 0o2, 0o11)) for n in nodes]
     for fullq in ([], [0o1], [0o1, 0o2], [0o11]):
         for snd, level in ((0, 1), (0o3, 1), (0o1, 2), (0o111, 1)):
